@@ -284,13 +284,17 @@ def discharge(ctx, body, p, ev, kind):
                 t = strip_refs(t)
                 if const_int(t) == 0:
                     return True
+                if const_int(t) is not None and const_int(t) > 0 and len_gt(p, bb, ev.args[0], const_int(t) - 1):
+                    return True          # a constant cut k with len >= k established on the path
                 if length_of(t) is not None and length_of(t) == c0:
                     return True
                 if is_call(t, "cmp::min", "Ord::min") and any(length_of(x) is not None and length_of(x) == c0 for x in call_args(t)[:2]):
                     return True
                 return False
             ends = list(a_[2])
-            if all(within(x) for x in ends) and (a_[1] != "Range" or const_int(strip_refs(ends[0])) == 0 or strip_refs(ends[0]) == strip_refs(ends[1])):
+            if all(within(x) for x in ends) and (a_[1] != "Range" or const_int(strip_refs(ends[0])) == 0 or strip_refs(ends[0]) == strip_refs(ends[1])
+                                                 or (const_int(strip_refs(ends[0])) is not None and const_int(strip_refs(ends[1])) is not None and const_int(strip_refs(ends[0])) <= const_int(strip_refs(ends[1])))
+                                                 or (const_int(strip_refs(ends[0])) is not None and length_of(ends[1]) is not None and length_of(ends[1]) == c0)):
                 return "G6-slice-at-own-length"
 
             def counted(t):
